@@ -30,7 +30,18 @@ NOYET = ' ╰╴ No messages yet'
 # ----------------------------------------------------------------------------- matcher-state model (C12)
 
 class MState:
+    """Reference model of an accumulated filter / breakpoint matcher.
+
+    A command that spells "every message" other than as a bare `*` (`*.*`, `.`, `()` ...) among its alternatives or its
+    exclusions can be read two ways: as the constant (`*` / `!`: the next command replaces it) or as an ordinary pattern
+    that happens to match everything (the next command accumulates).  The statement does not say, so after such a command
+    the model carries both states (`shadow` is the second reading) and judges a message only where they agree."""
+
     def __init__(self, const):
+        self.shadow = None
+        self._reset(const)
+
+    def _reset(self, const):
         self.const = const        # 'star' | 'bang' | None
         self.alts = []
         self.excl = []
@@ -43,21 +54,37 @@ class MState:
         m.excl = list(self.excl)
         m.star = self.star
         m.absorbed = list(self.absorbed)
+        m.shadow = self.shadow.copy() if self.shadow is not None else None
         return m
 
     def apply(self, m):
+        alias = m.get('alias')
+        if alias:
+            sh = self.shadow if self.shadow is not None else self.copy()
+            sh.shadow = None
+            sh._apply1(m)
+            self._apply1({'kind': 'bang' if alias == 'excl' else 'star'})
+            self.shadow = sh
+            return
+        if self.shadow is not None:
+            self.shadow._apply1(m)
+        self._apply1(m)
         if m['kind'] == 'bang':
-            self.__init__('bang')
+            self.shadow = None
+
+    def _apply1(self, m):
+        if m['kind'] == 'bang':
+            self._reset('bang')
             return
         if m['kind'] == 'star':
             if self.const is not None:
-                self.__init__('star')
+                self._reset('star')
             else:
                 self.absorbed += self.alts
                 self.alts = []
                 self.star = True
                 if not self.excl:
-                    self.__init__('star')
+                    self._reset('star')
             return
         if self.const is not None:
             self.const = None
@@ -72,6 +99,12 @@ class MState:
             self.star = False
 
     def value(self, cl, conn_name):
+        v = self._value1(cl, conn_name)
+        if self.shadow is not None and self.shadow._value1(cl, conn_name) != v:
+            return DC
+        return v
+
+    def _value1(self, cl, conn_name):
         if self.const == 'star':
             return MUST
         if self.const == 'bang':
@@ -88,6 +121,12 @@ class MState:
         return R.v_and(alt, R.v_not(exc))
 
     def describe(self):
+        d = self._describe1()
+        if self.shadow is not None:
+            return {'as-constant': d, 'as-pattern': self.shadow._describe1()}
+        return d
+
+    def _describe1(self):
         if self.const:
             return self.const
         return {'alts': [R.render_pattern(p) for p in self.alts], 'excl': [R.render_pattern(p) for p in self.excl],
@@ -137,7 +176,9 @@ class Selection:
 # ----------------------------------------------------------------------------- command generation
 
 BAD_MATCHERS = ['wl_surface(', '[wl_surface', 'a.b.c', 'a:b:c', 'wl_surface.commit(x) y', 'wl surface', 'wl_surface$',
-                'x.y(z', '(', '[', 'a.b(c))d', 'A:B:c.d', 'wl_pointer(x=1', 'foo@bar@baz', 'x(y)z']
+                'x.y(z', '(', '[', 'a.b(c))d', 'A:B:c.d', 'wl_pointer(x=1', 'foo@bar@baz', 'x(y)z',
+                # letters and digits outside ASCII where an id, a generation letter or a name is expected
+                '7é', '#9ß', '.attach(buffer=3ñ)', 'wl_pointer ! 7Ω', '7\u212a', 'é', 'wl_é', '12①', 'wl_surface@5é']
 
 
 def gen_commands(rng, voc, n, weights, spell_gdb=False):
@@ -159,6 +200,15 @@ def gen_commands(rng, voc, n, weights, spell_gdb=False):
                 m = R.gen_matcher(rng, voc, p_const=0.2)
                 if m['kind'] == 'list' and m['excl'] and rng.random() < 0.3:
                     m = {'kind': 'list', 'alts': [], 'excl': m['excl']}
+                if m['kind'] == 'list' and rng.random() < 0.1:
+                    # "every message" spelt other than as a bare `*`, among the exclusions or (no exclusions) the alternatives
+                    sp = {'staralias': rng.choice(R.STAR_ALIASES)}
+                    if m['excl'] or rng.random() < 0.5:
+                        m = {'kind': 'list', 'alts': m['alts'], 'excl': m['excl'] + [sp], 'alias': 'excl'}
+                        rng.shuffle(m['excl'])
+                    elif sp['staralias'] != '*' or len(m['alts']) > 0:
+                        m = {'kind': 'list', 'alts': m['alts'] + [sp], 'excl': [], 'alias': 'alt'}
+                        rng.shuffle(m['alts'])
                 text = R.render(m)
                 if m['kind'] == 'list' and not m['alts']:
                     text = '! ' + ', '.join(R.render_pattern(p) for p in m['excl'])
@@ -407,6 +457,8 @@ def judge(sc, st, res, tr, cmd_metas, V, want):
                         V.bump('probe_constant_replaced')
                     if meta['m']['kind'] == 'bang':
                         V.bump('probe_bang_reset')
+                    if meta['m'].get('alias'):
+                        V.bump('probe_every_message_spelt_otherwise_' + meta['m']['alias'])
                     if state.absorbed:
                         V.bump('probe_absorbed_alternatives')
             elif t == 'connection':
